@@ -33,6 +33,7 @@ static REDIRECTS: AtomicU64 = AtomicU64::new(0);
 static RECORDS_CHECKED: AtomicU64 = AtomicU64::new(0);
 static EITHER: AtomicU64 = AtomicU64::new(0);
 static NEXT_PORT: AtomicU64 = AtomicU64::new(30000);
+static ABORTED: AtomicU64 = AtomicU64::new(0);
 static WAVE: Mutex<Option<Arc<shuttle::sync::Barrier>>> = Mutex::new(None);
 /// incremented before and after every user-space map edit: a connect during which it moved overlapped an edit
 static EDIT_SEQ: AtomicU64 = AtomicU64::new(0);
@@ -114,6 +115,33 @@ fn gen_plan(seed: u64, tier: &str) -> Value {
     for _ in 0..if wave { 0 } else { r.below(6) } {
         edits.push(json!({"ep": *r.pick(&["wire", "imds", "ga"]), "redirect": r.chance(1, 2)}));
     }
+    // a quarter of the non-wave workloads: now and then the second hook never runs for a connect that passed the first
+    // (the probe was missed, the attempt was abandoned), and the thread goes on to its next connect, which is to a
+    // protected endpoint: its record must describe THAT connect, not the abandoned one. (Drawn from a stream of its
+    // own; these workloads carry no policy edits, so "protected" is not in question. What the unchanged program does
+    // when the next connect is to an unprotected address - the pending entry of the abandoned attempt becomes a record
+    // for it - is outside the property's quantifier, where every attempt passes both hook points: DESIGN 12.3.)
+    let mut ra = Rng::derive(seed, "abort");
+    if !wave && ra.chance(1, 4) {
+        edits.clear();
+        for t in threads.iter_mut() {
+            let cs = t["connects"].as_array_mut().unwrap();
+            let mut prev_aborted = false;
+            for c in cs.iter_mut() {
+                if prev_aborted {
+                    let (ip, port) = *ra.pick(&[WIRE, IMDS, GA]);
+                    c["ip"] = json!(ip.to_string());
+                    c["port"] = json!(port);
+                    c["proto"] = json!(IPPROTO_TCP);
+                    c["family"] = json!(AF_INET);
+                }
+                prev_aborted = ra.chance(1, 4);
+                if prev_aborted {
+                    c["abort"] = json!(true);
+                }
+            }
+        }
+    }
     // (the skip map only ever receives the agent's own pid, at start-up: it is not edited concurrently)
     json!({
         "scenario": "ebpf:C06", "seed": seed, "threads": threads, "edits": edits, "wave": wave,
@@ -194,6 +222,12 @@ fn run_thread(w: &World, t: &Value) {
         let new_ip = kernel::be32_to_ip(ctx.user_ip4);
         let new_port = u16::from_be(ctx.user_port as u16);
         let redirected = (new_ip, new_port) != (ip, port);
+        if c["abort"] == true {
+            // the connect fails here: no second hook, no connection, nothing to judge; whatever the first hook left
+            // behind for this thread must not leak into its next connect
+            ABORTED.fetch_add(1, Ordering::Relaxed);
+            continue;
+        }
         let src_port = NEXT_PORT.fetch_add(1, Ordering::SeqCst) as u16;
         shuttle::thread::sleep(std::time::Duration::from_millis(0));
         let wave_barrier = WAVE.lock().unwrap().clone(); // (the guard must be gone before this thread yields)
@@ -296,8 +330,10 @@ fn scenario(plan: Value) {
         let _ = h.join();
     }
     // nothing may be left behind between the hooks
+    // (a thread whose LAST connect failed between the hooks legitimately leaves its pending entry behind)
+    let trailing_aborts = plan["threads"].as_array().map(|a| a.iter().filter(|t| t["connects"].as_array().and_then(|c| c.last()).map(|c| c["abort"] == true).unwrap_or(false)).count()).unwrap_or(0);
     let left = kernel::map_len(kernel::MAP_LOCAL);
-    if left != 0 && VIOLATIONS.lock().unwrap().is_empty() {
+    if left > trailing_aborts && VIOLATIONS.lock().unwrap().is_empty() {
         violate("local (between-hooks) map entry left behind after all connects completed", format!("{} entries", left));
     }
 }
@@ -372,8 +408,8 @@ fn main() {
         "sched_digest": format!("{:016x}", SCHED_DIGEST.load(Ordering::SeqCst)),
         "events": HELPER_CALLS.load(Ordering::SeqCst),
         "sim_ms": 0,
-        "counters": {"sched.polls": HELPER_CALLS.load(Ordering::SeqCst)},
-        "stats": {"c06.schedules": ITER.load(Ordering::SeqCst), "c06.connects": CONNECTS.load(Ordering::SeqCst), "c06.diverted": REDIRECTS.load(Ordering::SeqCst), "c06.records_read_back": RECORDS_CHECKED.load(Ordering::SeqCst), "c06.connects_overlapping_a_policy_edit": EITHER.load(Ordering::SeqCst), "c06.helper_calls": HELPER_CALLS.load(Ordering::SeqCst)},
+        "counters": {"sched.polls": HELPER_CALLS.load(Ordering::SeqCst), "fault.kernel.connect_abandoned_between_hooks": ABORTED.load(Ordering::Relaxed), "fault.kernel.policy_edit_during_connects": plan["edits"].as_array().map(|a| a.len()).unwrap_or(0), "fault.kernel.wave_of_pending_connects": if plan["wave"] == true { 1 } else { 0 }},
+        "stats": {"c06.schedules": ITER.load(Ordering::SeqCst), "c06.connects": CONNECTS.load(Ordering::SeqCst), "c06.diverted": REDIRECTS.load(Ordering::SeqCst), "c06.records_read_back": RECORDS_CHECKED.load(Ordering::SeqCst), "c06.connects_abandoned_between_hooks": ABORTED.load(Ordering::Relaxed), "c06.wave_workloads": if plan["wave"] == true { 1 } else { 0 }, "c06.connects_overlapping_a_policy_edit": EITHER.load(Ordering::SeqCst), "c06.helper_calls": HELPER_CALLS.load(Ordering::SeqCst)},
         "notes": notes, "panics": [],
         "progress": {"connects": CONNECTS.load(Ordering::SeqCst), "schedules": ITER.load(Ordering::SeqCst)},
         "plan": plan,
